@@ -30,6 +30,10 @@ def plan(tier):
     if not q:
         I.append(inst("intersect[RP3 plane^plane]", 'harness.c16', 'intersect', dict(n=4, k1=3, k2=3), weight=300, timeout_s=2400, opts=dict(max_vars=64)))
         I.append(inst("intersect[RP3 line^plane]", 'harness.c16', 'intersect', dict(n=4, k1=2, k2=3), weight=200, timeout_s=2400, opts=dict(max_vars=64)))
+    for perm in range(6):
+        if q and perm not in (0, 3):
+            continue
+        I.append(inst(f"eigen-complex-pair[eigenvalue-order={perm}]", 'harness.c16', 'eigen_complex', {}, opts=dict(fix={"eig_perm": perm}), weight=60, timeout_s=1500))
     for d in ([2] if q else [2, 3]):
         for w in ('eigenvector', 'any', 'missing', 'diagonalize'):
             I.append(inst(f"eigen[{w},d={d}]", 'harness.c16', 'eigen', dict(d=d, which=w), weight=10 * d * d, timeout_s=1500, opts=dict(max_paths=2048)))
